@@ -62,39 +62,6 @@ Circuit with_random_tags(const Circuit &c, Rng &rng) {
 }
 
 
-// The same program as `c`, as a circuit object whose adjacent instructions are fusable but not fused — what slicing with a step
-// (`circuit[::2]`) produces: every fusable top-level instruction is split into one piece per target group, the pieces are
-// separated by TICKs, and every second instruction is taken.  Only public entry points are used.
-Circuit unfused_object(const Circuit &c) {
-    Circuit z;
-    size_t pieces = 0;
-    for (const auto &op : c.operations) {
-        if (op.gate_type == GateType::REPEAT) {
-            z.append_repeat_block(op.repeat_block_rep_count(), op.repeat_block_body(c), op.tag);
-            z.safe_append_u("TICK", {});
-            pieces++;
-            continue;
-        }
-        auto fl = GATE_DATA[op.gate_type].flags;
-        size_t step = (fl & GATE_TARGETS_PAIRS) ? 2 : 1;
-        bool splittable = !(fl & GATE_IS_NOT_FUSABLE) && !(fl & GATE_TARGETS_PAULI_STRING) && !(fl & GATE_TARGETS_COMBINERS) && op.targets.size() > step &&
-                          op.gate_type != GateType::TICK;
-        if (!splittable) {
-            z.safe_append(op);
-            z.safe_append_u("TICK", {});
-            pieces++;
-            continue;
-        }
-        for (size_t i = 0; i + step <= op.targets.size(); i += step) {
-            z.safe_append(CircuitInstruction(op.gate_type, op.args, {op.targets.ptr_start + i, op.targets.ptr_start + i + step}, op.tag));
-            z.safe_append_u("TICK", {});
-            pieces++;
-        }
-    }
-    // a TICK of the input would be dropped by the slice: keep the input as it is when it has one
-    for (const auto &op : c.operations) if (op.gate_type == GateType::TICK) return c;
-    return z.py_get_slice(0, 2, (int64_t)pieces);
-}
 }  // namespace
 
 VH_AREA(rewrite) {
